@@ -12,6 +12,8 @@ import os
 import shutil
 import tempfile
 
+from sim import seam
+
 _real_open = io.open
 
 ERRNOS = {'EIO': _errno.EIO, 'ENOSPC': _errno.ENOSPC, 'ENOENT': _errno.ENOENT,
@@ -105,6 +107,9 @@ class SimRawIO(io.RawIOBase):
         return self._pos
 
     def _maybe_eintr(self):
+        hook = seam.yield_hook
+        if hook is not None:
+            hook('io')      # real threads drop the GIL here
         i = self._calls
         self._calls += 1
         if i in self._eintr:
@@ -341,6 +346,9 @@ class DuckSource:
         self._fault_at = fault_at
 
     def read(self, size=-1):
+        hook = seam.yield_hook
+        if hook is not None:
+            hook('io')
         self._st.duck_reads += 1
         rem = len(self._items) - self._pos
         n = rem if size is None or size < 0 else min(size, rem)
@@ -372,6 +380,9 @@ class DuckSink:
     def write(self, s):
         if not isinstance(s, str):
             raise TypeError('write() argument must be str, not {}'.format(type(s).__name__))
+        hook = seam.yield_hook
+        if hook is not None:
+            hook('io')
         i = self._n
         self._n += 1
         self._st.duck_writes += 1
